@@ -76,6 +76,12 @@ DOCS_A = [
     R + '><x:item xmlns:x="urn:t" xmlns:t="urn:zzz" k="2" xsi:type="t:E"/></t:root>',
     R + '><t:item k="1" xsi:type="t:E" k2="a"/><x:item xmlns:x="urn:t" xmlns:t="urn:zzz" k="2" xsi:type="t:E"/></t:root>',
     '<root xmlns="urn:t" %s><item k="1" xsi:type="E" k2="a"/><h k="3" xsi:type="E"/></root>' % XSI,
+    # the SAME undeclared tag under the lax wildcard, with an xsi:type, nilled, with both, with neither
+    R + ' xmlns:xs="http://www.w3.org/2001/XMLSchema"><o:u xsi:type="xs:int">1</o:u></t:root>',
+    R + '><o:u xsi:nil="true"/></t:root>',
+    R + ' xmlns:xs="http://www.w3.org/2001/XMLSchema"><o:u xsi:type="xs:int" xsi:nil="true"/></t:root>',
+    R + '><o:u>text</o:u><o:u><o:z/></o:u></t:root>',
+    R + ' xmlns:xs="http://www.w3.org/2001/XMLSchema"><o:u xsi:type="xs:int">x</o:u><o:u xsi:type="xs:date">x</o:u></t:root>',
 ]
 SCHEMA_B = ('<xs:schema xmlns:xs="%s"><xs:complexType name="T0"><xs:sequence><xs:element name="a" type="xs:int" '
             'minOccurs="0" maxOccurs="3"/></xs:sequence><xs:attribute name="k" type="xs:string"/><xs:attribute name="n" '
